@@ -190,8 +190,9 @@ REGISTRY = {
     "C14": {
         "level": "proof",
         "family": "cas",
-        "modules": ["CoCoVerif.Props.C14"],
-        "theorems": [P + "C14_full"],
+        "modules": ["CoCoVerif.Props.C14", "CoCoVerif.Props.C14Parse"],
+        "theorems": [P + "C14_full", P + "parse_written", "CoCo.Spec.Tape.parse_sound", "CoCo.Spec.Tape.parse_complete_strong",
+                     "CoCo.Spec.Tape.parse_iff", "CoCo.Spec.Tape.wellFormed_unique"],
         "rule": "cases = seeded lists of 0..4 files as for C06; compared: the raw tape bytes of add_files (model vs implementation) and the "
                 "strict checksum-verifying parser Spec.Tape.parse run on the implementation's buffer; non-trivial = at least one file; "
                 "distinct = distinct (canonical input, outcome) digest",
